@@ -11,10 +11,12 @@ import (
 	"flag"
 	"fmt"
 	"os"
+	"os/exec"
 	"path/filepath"
 	"runtime/debug"
 	"sort"
 	"strconv"
+	"strings"
 	"time"
 
 	"golang.org/x/tools/go/ssa"
@@ -138,7 +140,82 @@ func cmdCheck(args []string) (code int) {
 		modSetsCache = map[*Prog]*modSets{}
 		getterMemo = map[*ssa.Function]int{}
 	}
+	if tier == "thorough" {
+		first.Extra = map[string]any{"sensitivity": sensitivity(id, *repo, *root, first)}
+	}
 	return first.Finish(*root, start, seed, names)
+}
+
+// sensitivity is the "does the check fire when it should" half of the thorough tier. Every
+// seeded change kept under <root>/seeded/<ID>-*/patch.diff (a compiling, test-passing edit
+// that is known to break the property, confirmed by scripts/intake.sh) is applied to a scratch
+// copy of the tree under analysis and the property's quick check is run on the copy in a
+// subprocess. The outcome is reported in the evidence (and printed); it never changes the
+// verdict on the tree itself: a seeded change that no longer applies is skipped, one that
+// is no longer detected is printed as SENSITIVITY-LOST so that a regression of the checker
+// is visible. Nothing is executed from the analysed tree.
+func sensitivity(id, repo, root string, main *Ctx) []map[string]any {
+	var out []map[string]any
+	dirs, _ := filepath.Glob(filepath.Join(root, "seeded", id+"-*", "patch.diff"))
+	sort.Strings(dirs)
+	self, err := os.Executable()
+	if err != nil {
+		return out
+	}
+	for _, patch := range dirs {
+		name := filepath.Base(filepath.Dir(patch))
+		rec := map[string]any{"seeded_change": name}
+		tmp, err := os.MkdirTemp("", "hsverif-sens-")
+		if err != nil {
+			continue
+		}
+		func() {
+			defer os.RemoveAll(tmp)
+			tree := filepath.Join(tmp, "tree")
+			outRoot := filepath.Join(tmp, "out")
+			_ = os.MkdirAll(outRoot, 0o755)
+			if b, err := exec.Command("cp", "-r", repo, tree).CombinedOutput(); err != nil {
+				rec["status"] = "copy failed: " + string(b)
+				return
+			}
+			_ = os.RemoveAll(filepath.Join(tree, ".git"))
+			if kf, err := os.ReadFile(filepath.Join(root, "known_findings.json")); err == nil {
+				_ = os.WriteFile(filepath.Join(outRoot, "known_findings.json"), kf, 0o644)
+			}
+			ap := exec.Command("git", "apply", "--whitespace=nowarn", patch)
+			ap.Dir = tree
+			if b, err := ap.CombinedOutput(); err != nil {
+				rec["status"] = "skipped: the change does not apply to this tree"
+				_ = b
+				return
+			}
+			cmd := exec.Command(self, "check", id, "quick", "-repo", tree, "-root", outRoot)
+			cmd.Env = append(os.Environ(), "REPO_DIR="+tree)
+			b, _ := cmd.CombinedOutput()
+			var rules []string
+			for _, line := range strings.Split(string(b), "\n") {
+				for _, v := range []string{"VIOLATED ", "UNDECIDED ", "ANCHOR-UNRESOLVED "} {
+					if strings.HasPrefix(line, v) {
+						f := strings.Fields(line)
+						if len(f) > 1 {
+							rules = append(rules, f[1])
+						}
+					}
+				}
+			}
+			if strings.Contains(string(b), "VIOLATION property="+id) {
+				rec["status"] = "detected"
+				rec["rules"] = rules
+			} else {
+				rec["status"] = "NOT detected"
+				fmt.Printf("SENSITIVITY-LOST property=%s the seeded change %s is no longer reported\n", id, name)
+			}
+		}()
+		fmt.Printf("sensitivity %s: %v\n", name, rec["status"])
+		out = append(out, rec)
+	}
+	main.Stat("sensitivity_runs", len(out))
+	return out
 }
 
 // cmdMatrix loads the tree once and evaluates the quick tier of every property on it. It
